@@ -13,7 +13,7 @@ RULE = (
     "distinct (model cell, parameter, phase in {memoryless, with-memory}, missing pattern) tuples compared at least once"
 )
 REQUIRED = {"msteps": 300, "cmp_pop_mean": 300, "cmp_ind_mean": 300, "cmp_ind_std_burn_in": 100, "cmp_ind_std_sa": 100,
-            "cmp_noise_scalar": 50, "cmp_noise_diagonal": 50, "cmp_mixture_probs": 10, "cmp_together": 100}
+            "cmp_noise_scalar": 50, "cmp_noise_diagonal": 50, "cmp_mixture_probs": 10, "cmp_together": 100, "boundary_iterations_checked": 15, "mixture_steps_with_a_nearly_empty_cluster": 3}
 ASSUMPTIONS = [
     "float32 sums over <= ~500 observations: rtol 2e-4, atol 1e-6",
     "mixture model: per-cluster means/stds use a responsibility weighting the documentation does not pin - only probabilities (= mean "
@@ -71,10 +71,35 @@ def run_shard(spec, ctx):
         events = kind == "joint"
         case = {"index": i, "model": list(map(str, g)), "missing": missing, "n_iter": n_iter, "n_burn_in_iter": nb}
         try:
-            df = gen.cohort(rng, n_ind=int(rng.integers(4, 12)), n_feat=dim, missing=missing, events=events,
-                            one_visit_ok=not events, binary=(noise == "bernoulli"))
+            n_cl = int(rng.choice([2, 4, 5])) if kind == "mixture_logistic" else None
+            df = gen.cohort(rng, n_ind=int(rng.integers(4, 12)) if kind != "mixture_logistic" else int(rng.integers(20, 40)), n_feat=dim, missing=missing, events=events,
+                            one_visit_ok=not events, binary=(noise == "bernoulli"), subpops=(max(n_cl - 1, 2) if n_cl else 1))
             ds = gen.to_dataset(df, events=events)
-            kw = {"n_clusters": 2} if kind == "mixture_logistic" else {}
+            if kind == "mixture_logistic" and rng.random() < 0.6:
+                # the repository's own simulated mixture cohort (heterogeneous sub-populations: clusters do get nearly empty there)
+                import os
+
+                import leaspy
+                import pandas as pd
+
+                raw = pd.read_csv(os.path.join(os.path.dirname(leaspy.__file__), "datasets", "data", "simulated_data_for_mixture.csv"), sep=";", decimal=",")
+                raw["ID"] = raw["ID"].ffill()
+                first = int(rng.integers(0, 60))
+                ids = raw["ID"].unique()[first: first + int(rng.integers(30, 50))]
+                raw = raw[raw["ID"].isin(ids)]
+                dim = raw.shape[1] - 2
+                from leaspy.io.data.data import Data
+                from leaspy.io.data.dataset import Dataset
+
+                ds = Dataset(Data.from_dataframe(raw.set_index(["ID", "TIME"])))
+                n_iter = min(n_iter, 12)
+                nb = min(nb, n_iter)
+                case.update(dataset="leaspy/datasets/data/simulated_data_for_mixture.csv", first_subject=first, n_subjects=len(ids), n_iter=n_iter, n_burn_in_iter=nb)
+                ctx.count("mixture_fits_on_bundled_cohort")
+            kw = {"n_clusters": n_cl} if kind == "mixture_logistic" else {}
+            case["n_clusters"] = kw.get("n_clusters")
+            if "dataset" in case:
+                kw["features"] = list(ds.headers)
             model = gen.make_model(kind, dim, src, noise, **kw) if noise else gen.make_model(kind, dim, src, **kw)
             model.initialize(ds)
         except Exception as e:
@@ -103,8 +128,15 @@ def run_shard(spec, ctx):
 
         def _on_step(rec, state, _case):
             ctx.count("msteps")
-            S, before, after, burn = rec["S_used"], rec["params_before"], rec["params_after"], rec["burn_in_flag"]
+            S, before, after = rec["S_used"], rec["params_before"], rec["params_after"]
+            # the phase is derived from the iteration index and the configured length of the memory-less phase - NOT from the flag the
+            # algorithm hands to the model (a wrong flag at the boundary iteration is exactly what must be seen)
+            burn = rec["k"] <= rec["n_burn_in_iter"]
+            if bool(rec["burn_in_flag"]) != burn:
+                ctx.count("phase_flag_differs_from_iteration_index")
             phase = "memoryless" if burn else "with-memory"
+            if rec["k"] == rec["n_burn_in_iter"] + 1:
+                ctx.count("boundary_iterations_checked")
             for p, new in after.items():
                 got = M.f64(new)[0]
                 want, tag, extra_atol = None, None, 0.0
@@ -136,6 +168,8 @@ def run_shard(spec, ctx):
                 elif p == "probs" and is_mix and rec.get("nll_regul_ind_sum_ind") is not None:
                     r = M.responsibilities(rec["nll_regul_ind_sum_ind"])
                     want, tag = r.mean(axis=0), "mixture_probs"
+                    if float(want.min()) < 1e-2:
+                        ctx.count("mixture_steps_with_a_nearly_empty_cluster")
                     if abs(float(got.sum()) - 1.0) > 1e-5:
                         dead["v"] = True
                         ctx.violation("mstep/mixture-probs-not-normalised", f"mixture probabilities sum to {float(got.sum())}", dict(_case, k=rec["k"]))
@@ -169,5 +203,44 @@ def run_shard(spec, ctx):
             if not dead["v"]:
                 ctx.count("fit_aborted_other")
                 ctx.note(f"fit_aborted_{type(e).__name__}", str(e)[:200])
+        # ---- direct M-steps on constructed states (mixture): individuals concentrated on one cluster, so that the other clusters are
+        # nearly empty - a region fits reach only on a knife edge (iteration 1 of some cohorts) -----------------------------------------
+        if is_mix and not dead["v"]:
+            try:
+                from vf.probes.algo import _cp
+
+                st = model.state.clone()
+                with st.auto_fork(None):
+                    if not st.is_variable_set("y"):
+                        model.put_data_variables(st, ds)
+                    n_i = ds.n_individuals
+                    for rep in range(3):
+                        c = int(rng.integers(0, kw["n_clusters"]))
+                        # well separated, narrow clusters (admissible parameter values), all individuals drawn near cluster c
+                        tm0 = st["tau_mean"]
+                        st["tau_mean"] = (60.0 + 40.0 * torch.arange(tm0.numel(), dtype=tm0.dtype)).reshape(tm0.shape)
+                        st["tau_std"] = torch.ones_like(st["tau_std"])
+                        tm = st["tau_mean"].reshape(-1)
+                        xm = st["xi_mean"].reshape(-1)
+                        st["tau"] = (tm[c] + torch.tensor(rng.normal(0, 0.5, size=(n_i, 1)))).to(torch.float64)
+                        st["xi"] = (xm[c] + torch.tensor(rng.normal(0, 0.05, size=(n_i, 1)))).to(torch.float64)
+                        if "sources" in model.individual_variables_names:
+                            st["sources"] = torch.tensor(rng.normal(0, 0.3, size=(n_i, src)), dtype=torch.float32)
+                        burn = bool(rep % 2)
+                        rec = {"k": 1 if burn else 2, "n_burn_in_iter": 1, "burn_in_flag": burn,
+                               "params_before": {p_: _cp(st._values[p_]) for p_ in model.parameters_names},
+                               "nll_regul_ind_sum_ind": _cp(st["nll_regul_ind_sum_ind"])}
+                        S = model.compute_sufficient_statistics(st)
+                        rec["nll_regul_ind_sum_ind"] = _cp(st["nll_regul_ind_sum_ind"])  # after the re-centring done by the statistics step
+                        rec["S_used"] = {k_: _cp(v_) for k_, v_ in S.items()}
+                        model.update_parameters(st, S, burn_in=burn)
+                        rec["params_after"] = {p_: _cp(st._values[p_]) for p_ in model.parameters_names}
+                        ctx.count("direct_msteps_concentrated_mixture")
+                        on_step(rec, st, dict(case, direct_mstep="individuals concentrated on cluster %d" % c))
+            except LeaspyConvergenceError:
+                ctx.count("direct_mstep_convergence_guard")
+            except Exception as e:
+                ctx.count("direct_mstep_skipped")
+                ctx.note(f"direct_mstep_skipped_{type(e).__name__}", str(e)[:200])
         if i < 1:
             ctx.sample(case, limit=1)
